@@ -168,21 +168,17 @@ def gen_conc(maxctl):
 
 def check_conc(ws, case, bound=2):
     script, ctl = case
-    r = ws.call({"mode": "mt", "fork": True, "timeout_ms": 20000 if "eval" in ctl else 240000, "what": "control", "script": SCRIPTS[script], "controller": ctl, "bound": bound,
+    r = ws.call({"mode": "mt", "fork": True, "timeout_ms": 240000, "what": "control", "script": SCRIPTS[script], "controller": ctl, "bound": bound,
                  "max_executions": 200000}, variant="fast")
     if r["outcome"] != "ok":
         from .c09 import kind_class
         kind = r.get("kind", r["outcome"]) if r["outcome"] == "crash" else r["outcome"]
-        if "eval" in ctl:
-            return [("C19|conc|evaluate_expression-while-executor-runs|crash", "script %s controller %r: %s in some interleaving (%s)" % (script, ctl, kind, r.get("frame", "")[:100]), None, case)], {"n": 1}
         return [("C19|conc|%s|%s" % ("+".join(ctl), kind_class(kind)), "script %s controller %r: explorer failed: %s %s" % (script, ctl, kind, r.get("what", "")), None, case)], {"n": 1}
     res = r["result"]
     info = {"n": 1, "nontrivial": 1, "states": res["points"], "transitions": res["executions"], "executions": res["executions"],
             "outcomes": res["distinct_outcomes"], "capped": 1 if res.get("capped") else 0}
     if res["violations"]:
         v = res["violations"][0]
-        if "eval" in ctl:
-            return [("C19|conc|evaluate_expression-while-executor-runs|%s" % v["kind"], "script %s controller %r: %s ; schedule %s" % (script, ctl, v["what"], v.get("schedule", "")[:80]), None, case)], info
         return [("C19|conc|%s|%s" % (v["kind"], "+".join(sorted(set(ctl)))), "script %s controller %r (%d executions, bound %d): %s ; schedule %s" % (
             script, ctl, res["executions"], bound, v["what"], v.get("schedule")), None, case)], info
     return [], info
@@ -198,23 +194,22 @@ def gen_tsan():
             yield [s, list(seq)]
         yield [s, ["stop", "abort"]]
         yield [s, ["eval", "stop"]]
+        yield [s, ["eval", "abort"]]
+        yield [s, ["start", "eval"]]
+        yield [s, ["eval", "eval"]]
 
 
 def check_tsan(ws, case):
     script, ctl = case
-    r = ws.call({"mode": "mt", "fork": True, "timeout_ms": 15000 if "eval" in ctl else 120000, "what": "control-free", "script": SCRIPTS[script], "controller": ctl,
-                 "repeat": 3 if "eval" in ctl else 20}, variant="tsan")
+    r = ws.call({"mode": "mt", "fork": True, "timeout_ms": 120000, "what": "control-free", "script": SCRIPTS[script], "controller": ctl,
+                 "repeat": 20}, variant="tsan")
     info = {"n": 1, "nontrivial": 1, "executions": 20, "states": 20, "transitions": 20}
     err = r.get("stderr", "")
     if r["outcome"] not in ("ok",) and "ThreadSanitizer" not in err:
-        if "eval" in ctl:
-            return [("C19|tsan|evaluate_expression-while-executor-runs|%s" % r.get("kind", r["outcome"]), "free-running pass with controller %r: %s" % (ctl, r.get("kind", r["outcome"])), None, case)], info
         return [("C19|tsan|%s|%s" % ("+".join(ctl), r.get("kind", r["outcome"])), "free-running pass failed: %s" % r.get("kind", r["outcome"]), None, case)], info
     races = parse_tsan(err)
     viols = []
     for field, what in races[:3]:
-        if "eval" in ctl:
-            field = "evaluate_expression-while-executor-runs"
         viols.append(("C19|tsan|data-race|%s" % field, "script %s controller %r: %s" % (script, ctl, what), None, case))
     return viols, info
 
